@@ -182,6 +182,30 @@ IsMesh(tr) == tr.type = "mesh3d"
 IsLine(tr) == tr.type = "scatter3d" /\ tr.mode = "lines"
 SeqNear(a, b, tol) == Len(a) = Len(b) /\ \A i \in DOMAIN a : Near(a[i], b[i], tol)
 
+\* The glyph of a Dipole is an arrow (a shaft and a wider cone at the tip) along the moment, which is a vector of the OBJECT's frame:
+\* the drawn arrow points along R * moment.  Size and pivot are chosen by show(), so the claim is scale- and offset-free:
+\*   GlyphAxis    - no vertex is farther from the line through the object's position along R * moment than a fifth of the arrow's length along the moment
+\*                  (the arrow is drawn with diameter 0.3 x length), measured in the object's frame;
+\*   GlyphHeading - the widest ring of vertices (the base of the cone) lies in the tip-side part of the extent along the moment
+\*                  (at 0.7 of it; demanded: beyond 0.6), so the arrow points along +moment and not along -moment.
+\* Judged when exactly one path index is displayed (the vertices of several displayed indices are merged in one trace) and the glyph is
+\* within 6 lattice units of the position and |moment|^2 <= 9 (32-bit integer arithmetic).  g.verts = <<moment>> (lattice vector); none given: the harness uses (0,0,1).
+Dot(a, b) == a[1] * b[1] + a[2] * b[2] + a[3] * b[3]
+MomentOf(g) == IF g.verts = <<>> THEN <<0, 0, 1>> ELSE g.verts[1]
+ArrowClause(u, pose, M) ==
+    IF M = {} \/ ~(\A d \in M : \A i \in 1..3 : Abs(Local(pose, d)[i]) <= 6 * Q) THEN "ok"
+    ELSE LET loc(d) == Local(pose, d)                   \* relative to the object's position: the pivot of the arrow lies on its axis
+             A == {Dot(loc(d), u) : d \in M}
+             amax == CHOOSE a \in A : \A b \in A : b <= a
+             amin == CHOOSE a \in A : \A b \in A : b >= a
+             P(d) == Dot(loc(d), loc(d)) * Dot(u, u) - Dot(loc(d), u) * Dot(loc(d), u)         \* (distance from the axis)^2 * |u|^2
+             PS == {P(d) : d \in M}
+             pmax == CHOOSE a \in PS : \A b \in PS : b <= a
+             wide == {d \in M : P(d) >= pmax - pmax \div 5}
+         IN IF amax = amin \/ pmax > ((amax - amin) * (amax - amin)) \div 25 THEN "GlyphAxis"
+            ELSE IF ~(\A d \in wide : 10 * Dot(loc(d), u) >= 4 * amin + 6 * amax) THEN "GlyphHeading"
+            ELSE "ok"
+
 \* coverage: for every displayed index the placed corners are among the drawn points of some body trace
 Covered(E, pts, tol) == \A e \in E : \E d \in pts : Near(e, d, tol)
 \* the first failing clause of the placement of one object, or "ok"
@@ -210,6 +234,8 @@ ShapeClause(cls, g, poses, D, traces, bare, tol) ==
                 \A i \in 1..3 : (\E d \in all : d[i] <= a[i] + tol) /\ (\E d \in all : d[i] >= a[i] - tol)
         IN IF all = {} THEN "GlyphDrawn"
            ELSE IF ~(\A m \in D : inside(m)) THEN "GlyphAnchor"
+           ELSE IF cls = "Dipole" /\ Cardinality(D) = 1 /\ MomentOf(g) # <<0, 0, 0>>
+                THEN ArrowClause(MomentOf(g), poses[CHOOSE m \in D : TRUE], UNION {PointsOf(t) : t \in {t \in traces : IsMesh(t)}})
            ELSE "ok"
     ELSE "ok"      \* Collection: no shape of its own
 
